@@ -12,6 +12,7 @@ import (
 
 	"seehuhn.de/go/sfnt"
 	"seehuhn.de/go/sfnt/cff"
+	"seehuhn.de/go/sfnt/cmap"
 	"seehuhn.de/go/sfnt/glyf"
 	"seehuhn.de/go/sfnt/glyph"
 	"seehuhn.de/go/sfnt/opentype/classdef"
@@ -292,6 +293,32 @@ func fontSet(thorough bool) []fontSpec {
 			}
 			for i := 1; i < len(o.Names); i++ {
 				if !mapped[glyph.ID(i)] || i%3 == 0 {
+					o.Names[i] = ""
+				}
+			}
+			return f, nil
+		}})
+	res = append(res, fontSpec{ID: "lkeg", Desc: "the rich TrueType font (GSUB 1-6) whose character map reaches the odd glyphs only; exactly the glyphs no character reaches have an empty name (names for them can only come from GSUB rules)",
+		build: func() (*sfnt.Font, error) {
+			f, err := richFont("ttf", 80)
+			if err != nil {
+				return nil, err
+			}
+			o := f.Outlines.(*glyf.Outlines)
+			m := cmap.Format4{}
+			mapped := map[glyph.ID]bool{}
+			if best, err := f.CMapTable.GetBest(); err == nil {
+				lo, hi := best.CodeRange()
+				for r := lo; r <= hi && r < 0xFFFF; r++ {
+					if g := best.Lookup(r); g != 0 && g%2 == 1 {
+						m[uint16(r)] = g
+						mapped[g] = true
+					}
+				}
+			}
+			f.InstallCMap(m)
+			for i := 1; i < len(o.Names); i++ {
+				if !mapped[glyph.ID(i)] {
 					o.Names[i] = ""
 				}
 			}
